@@ -23,9 +23,11 @@ def run(ctx):
         modes_quick=[("single", 12000), ("seq2", None), ("spell", None)],
         modes_thorough=[("single", None), ("seq2", None), ("seq3", None), ("spell", None)],
         devs=[("LeakWalkState", "seq2", ("Exact",)), ("CtorAnyPkg", "single", ("Exact",)), ("CtorByBareName", "single", ("Exact",)), ("NoUnalias", "spell", ("Exact",)), ("CtorAnyType", "single", ("Exact",)), ("PruneReported", "single", ("Exact",))],
+        registry=True,
         assumptions=["fragment: non-generic defined types, direct imports, one candidate statement per declaration",
                      "trailing comma in the constructor list and methods named like a constructor are not generated (unspecified)",
                      "diagnostics are compared as (file, line, code) sets of the CTOR category"],
         rule="every terminal state of Constructor.tla (one abstract program + the diagnostics the property demands) is concretised into a "
              "multi-package Go program and analysed by the real analyzers (in-process checker driver with gob round trip of facts; a sample "
-             "also through the unmodified binary and go vet -vettool); missing, extra, mis-coded and mis-placed CTOR diagnostics are mismatches")
+             "also through the unmodified binary and go vet -vettool); missing, extra, mis-coded and mis-placed CTOR diagnostics are mismatches; "
+             "the constructor index itself (util.TypeAssociationRegistry, with util.TypesMap) is replayed from every history of Registry.tla")
